@@ -32,6 +32,15 @@ def expected_keys(structs):
     return tree("SampleGenerator")
 
 
+def same_tree(got, exp):
+    """an empty serialised array carries no information about its element type"""
+    if isinstance(got, list) and isinstance(exp, list):
+        return got == [] or (len(got) == 1 and len(exp) == 1 and same_tree(got[0], exp[0]))
+    if isinstance(got, dict) and isinstance(exp, dict):
+        return set(got) == set(exp) and all(same_tree(got[k], exp[k]) for k in got)   # field ORDER is checked by schema_matches
+    return got == exp
+
+
 def run(ctx):
     rng = ctx.rng
     structs, manual = serde_schema.extract()
@@ -73,6 +82,6 @@ def run(ctx):
         if problems:
             ctx.violation(f"restored sampler ({fmt}) differs from the original: " + "; ".join(problems), small, observed=problems)
         # correspondence between the regenerated schema and what the real serialisation contains
-        if a.get("serialized_keys") != exp:
+        if not same_tree(a.get("serialized_keys"), exp):
             ctx.mismatch("serialised field tree vs the schema extracted from the source (derive semantics: every field, by name)", small,
                          a.get("serialized_keys"), exp)
